@@ -588,6 +588,19 @@ def rule_transient_state_resolved(ctx):
                 ctx.check(drops_hash or parks, fi.fq, f"{recv}.set_state(PENDING) after a job that did not run the command changes eligibility", "the step goes back to PENDING with its stored hash and without the deferred flag: the next pop selects it again and derives the same job, so the build phase never ends", "hash deleted first" if drops_hash else "parked as deferred while a dynamic input is unavailable", where=ctx.where_of(fi, c))
     if n_back < 2:
         raise AnalysisError("executor: set_state(PENDING) sites not found")
+    # mark_completed, on which the handlers rely, writes a resting state on every path
+    mc = ctx.prog.func("step.Step.mark_completed")
+    n_mc = 0
+    for tr, st in flow.paths_of(mc):
+        if st not in ("return", "fall"):
+            continue
+        n_mc += 1
+        states = [ast.unparse(e[2].args[0]) for e in tr if e[0] == "call" and e[1] == "self.set_state" and e[2].args]
+        if not states or any(x not in ("StepState.PENDING", "StepState.FAILED", "StepState.SUCCEEDED") for x in states):
+            ctx.bad(mc.fq, "every path writes PENDING, FAILED or SUCCEEDED", f"a path through {[(e[1], e[2]) for e in tr if e[0] == 'test'][:4]} writes {states or 'no state'}: the step stays RUNNING for ever", where=ctx.where_of(mc))
+            break
+    else:
+        ctx.check(n_mc >= 3, mc.fq, "every path writes PENDING, FAILED or SUCCEEDED", "paths not found", f"{n_mc} paths")
     for fq in ("executor.Executor.validate_dynamic_job", "executor.Executor.try_skip_job", "executor.Executor.execute_job"):
         fi = ctx.prog.func(fq)
         n = 0
@@ -648,7 +661,7 @@ RULES = [
     Rule("R-C10-5", "wake-ups after eligibility-changing events", rule_wakeups, min_instances=9),
     Rule("R-C10-6", "job_loop returns only after an empty poll", rule_loop_exit, min_instances=3),
     Rule("R-C10-7", "defer cap", rule_defer_cap, min_instances=5),
-    Rule("R-C10-9", "job handlers leave the transient states on every exit", rule_transient_state_resolved, min_instances=8),
+    Rule("R-C10-9", "job handlers leave the transient states on every exit", rule_transient_state_resolved, min_instances=9),
     Rule("R-C10-8", "'needed' is computed from attached consumers, targets and declared need", C11.rule_read_set, min_instances=10),
 ]
 
@@ -658,6 +671,7 @@ def _drop_trigger(name):
 
 
 MUTANTS = [
+    Mutant("failed-step-stays-running", "step.py", in_function("Step.mark_completed", replace_once('                logger.info("Failed step: %s", self.label)\n                self.set_state(StepState.FAILED)\n', '                logger.info("Failed step: %s", self.label)\n')), ("R-C10-9",)),
     Mutant("validated-step-not-parked", "executor.py", in_function("Executor.validate_dynamic_job", replace_once("step.set_state(StepState.PENDING, step.has_unavailable_dynamic_input())", "step.set_state(StepState.PENDING)")), ("R-C10-9",)),
     Mutant("reset-keeps-hash", "executor.py", in_function("Executor._reset_step_to_pending", replace_once("            step.delete_hash()\n", "")), ("R-C10-9",)),
     Mutant("validated-step-stays-checking", "executor.py", in_function("Executor.validate_dynamic_job", replace_once("        async with self.db:\n            step.set_state(StepState.PENDING, step.has_unavailable_dynamic_input())\n", "")), ("R-C10-9",)),
